@@ -43,7 +43,7 @@ def day_shapes(tier):
     return out
 
 
-T_ZONES_QUICK = [None, [1, 0], [-5, -30]]
+T_ZONES_QUICK = [None, [0, 0], [-5, -30]]   # an explicit +00:00 is a *known* zone, distinct from unknown
 T_ZONES = [None, [1, 0], [-5, -30], [0, 0], [14, 0]]
 
 
